@@ -256,14 +256,15 @@ class SimReadHandle(io.RawIOBase):
     fs = self.fs
     if fs.dead:
       raise SimCrash('dead process read a file')
-    rf = getattr(fs, 'read_faults', None)
+    rf = getattr(fs, 'read_faults', None) or {}
+    k = fs.counters.get('reads', 0)
+    fs.counters['reads'] = k + 1
     if rf:
-      k = fs.counters.get('reads', 0)
-      fs.counters['reads'] = k + 1
       f = rf.get(k)
       if f:
-        fs.fired.append(dict(f, read=k))
+        fs.fired.append(dict(f, read=k, kind='read_' + f['kind']))
         fs._count('read_' + f['kind'])
+        f = dict(f)
         if f['kind'] == 'crash':
           fs._crash(f, f'read#{k}')
         raise OSError(errno.EIO, 'injected read error', self.path)
